@@ -50,4 +50,19 @@ TEXTS = {
         "level_text": "400 (quick) to 2e4 (thorough) trajectories of 50..600 steps with random predict/update patterns, weights 0.2x..5x default, coordinates to 1e4, heights to 1e3; every step of the box, point and vector filters is compared with the reference (mean, full covariance through the guarded accessor), distance() is compared with the f64 Mahalanobis distance of the library's own state, and the direct/inverted cost identity is checked on a 1e4-point grid including all gates +-1 ulp.",
         "level_note": "Trusts the f64 reference and the noise model read from the source; one-step tolerances have >=10x head-room over the largest deviation observed.",
     },
+    "C09": {
+        "technique": "runtime reference-model monitor: sequential map model shadowing every store operation, full state comparison through get_store() after each step; exhaustive short sequences + random long ones; Miri (thorough)",
+        "level_text": "All operation sequences of length <= 2 (quick) / <= 3 (thorough, 70^3 x 2 shard counts) over a 70-operation alphabet are executed against the real store, plus tens of thousands of sampled length-3 and hundreds to thousands of random sequences of 50..400 operations on 1..5 shards; after every single operation the return value and the complete contents of every shard are compared with a sequential model built on the workload's own attribute / metric callbacks (incl. data-driven callback failures).",
+        "level_note": "The model calls the same user callbacks, so the oracle is the composition rule of the store / track code. Non-blocking merges are awaited before the next operation. Random sequences are sampled.",
+    },
+    "C10": {
+        "technique": "runtime reference enumeration + controlled schedules: gate scripts at the guarded worker schedule points enumerate every command order (and caller position) for small scenarios, seeded delay plans for larger ones; Miri many-seeds and TSan (thorough)",
+        "level_text": "Every scenario's result and error multisets are compared with an enumeration over the pre-query store contents, the store is compared before/after, and the same query is re-executed under all worker-command interleavings x caller positions (<= 3 shards x <= 2 candidates: up to 90 x 7 scripts) or under random delay plans; the number of distinct command orders actually observed is reported.",
+        "level_note": "Exhaustive only at command granularity for the small scenarios; larger scenarios see the schedules the delay plans and the OS produce. Assumes per-worker FIFO command order.",
+    },
+    "C11": {
+        "technique": "fault injection at user callbacks: every callback invocation position of every generated operation instance is made to fail once; snapshot-equality / notification-count / model monitors",
+        "level_text": "For each generated instance (7 operation kinds x track shapes x class lists x history flag) the fault-free run is compared with a sequential model (incl. the merge-history rule) and then the instance is re-executed once per callback invocation k with that invocation failing after it has mutated its arguments: Err, no notification and a bit-identical pre-state (attributes, observations of every class, metric state, merge history; both tracks still stored for store merges) are required. Exhaustive over fault positions per instance; instances are sampled (3e3 quick, 1e5 thorough).",
+        "level_note": "Faults are injected only at the three user callbacks (update.apply, attributes.merge, metric.optimize); metric state is observed through a probe observation on a clone.",
+    },
 }
